@@ -40,6 +40,9 @@ class MultiplicityInfo:
     #: Whether this multiplicity descriptor represents
     #: a freshly created free object.
     fresh_free_object: bool = False
+    #: Whether the elements are objects created by this very
+    #: expression (INSERT), and so are disjoint from any other set.
+    fresh_objects: bool = False
 
     def is_empty(self) -> bool:
         return self.own.is_empty()
